@@ -137,6 +137,8 @@ def build(desc, r, fr):
         return getref(r, desc[1])
     if k == "const":
         return desc[1]
+    if k == "missing":
+        return r["no_such_key"]
     if k == "neg":
         return -build(desc[1], r, fr)
     if k == "abs":
@@ -180,6 +182,8 @@ def ev(desc, d, g):
         return getval(d, desc[1])
     if k == "const":
         return desc[1]
+    if k == "missing":
+        raise KeyError("no_such_key")
     if k == "neg":
         return -ev(desc[1], d, g)
     if k == "abs":
@@ -280,6 +284,8 @@ def show(desc):
         return desc[1]
     if k == "const":
         return str(desc[1])
+    if k == "missing":
+        return "d['no_such_key']"
     if k in ("neg", "abs", "floor", "ceil", "trunc", "inv", "pos"):
         return f"{k}({show(desc[1])})"
     if k == "round2":
